@@ -58,6 +58,10 @@ E = {
     'pp-nonzero': ('P', 'PRE_PROCESS_ERROR', {'pp': 'ppfail'}),
     'pp-nostart': ('P', 'PRE_PROCESS_ERROR', {'pp': 'ppmissing'}),
     'pp-ok': ('ok', None, {'pp': 'ppok'}),
+    # the default suite file beside the case cannot be read as a suite: prevents execution like a syntax error of the case
+    'suite-syntax': ('P', 'SYNTAX_ERROR', {'suite': '[conf]\nno-such-conf-instruction x\n'}),
+    'suite-unknown-section': ('P', 'SYNTAX_ERROR', {'suite': '[no-such-section]\nx\n'}),
+    'suite-case-instr-syntax': ('P', 'SYNTAX_ERROR', {'suite': '[setup]\ndef nosuchtype X = 1\n'}),
 }
 ENDINGS = list(E)
 STATUSES = (None, 'PASS', 'FAIL', 'SKIP')
@@ -94,7 +98,7 @@ def cases(tier):
 
 def case_text(status, ending, code):
     cls, ident, lines = E[ending]
-    ph = {k: [l.replace('{N}', str(code)) for l in v] for k, v in lines.items() if k != 'pp'}
+    ph = {k: [l.replace('{N}', str(code)) for l in v] for k, v in lines.items() if k not in ('pp', 'suite')}
     out = []
     out.append('[conf]')
     if status is not None:
@@ -191,6 +195,8 @@ def run(case) -> Result:
         args.append('--keep')
     elif mode == 'act':
         args.append('--act')
+    if E[ending][2].get('suite'):
+        w.write('exactly.suite', E[ending][2]['suite'])
     o = cli.run_case(text if not pp else 'not a test case [\n', args=args, mp=mp, real_files=(mode == 'act'))
     errs = []
     if o.exc:
